@@ -33,7 +33,7 @@ def bars(grid, paths, spread):
 def full_model(name, contracts, space, grid, events, targets, lats=(0,), delays=(0,), fees="free", rate=F(0), markup=F(0),
                deposit=F(1000), thr=F(0), maxsteps=3, ruin="done", chain=(), chain_ltd=(), chain_exp=(), yearlen=0,
                base=(2019, 3, 4), invariants=(), properties=(), reset_anywhere=False, clockscope="restored_on_entry",
-               extends="EnvFull", extra_plain=None, chain_offset=0, fractional=True):
+               extends="EnvFull", extra_plain=None, chain_offset=0, fractional=True, rate_path=()):
     cs = {c: CONTRACTS[c] for c in contracts}
     fixed, prop = FEES[fees]
     defs = {
@@ -41,7 +41,7 @@ def full_model(name, contracts, space, grid, events, targets, lats=(0,), delays=
         "Mult": {c: cs[c]["mult"] for c in contracts},
         "CashReq": {c: cs[c]["cashreq"] for c in contracts},
         "Mr": {c: cs[c]["mr"] for c in contracts},
-        "Fixed": fixed, "Prop": prop, "Deposit": deposit, "Rate": rate, "Markup": markup, "Epsilon": F(0),
+        "Fixed": fixed, "Prop": prop, "Deposit": deposit, "Rate": rate, "RatePath": [tuple(x) for x in rate_path], "Markup": markup, "Epsilon": F(0),
         "Grid": list(grid), "Events": list(events), "Lats": set(lats), "Delays": set(delays),
         "Targets": tlagen.Raw("{" + ", ".join(tlagen.tla(dict(t)) for t in targets) + "}"),
         "ChainSeq": list(chain), "ChainLtd": list(chain_ltd), "ChainExp": list(chain_exp), "Thr": thr,
@@ -55,7 +55,8 @@ def full_model(name, contracts, space, grid, events, targets, lats=(0,), delays=
         "cfg": tlagen.cfg(defs, plain, invariants=invariants, properties=properties),
         "ctx": {"model": {"contracts": cs, "space": list(space), "chain": list(chain), "fixed": fixed, "prop": prop,
                           "deposit": deposit, "rate": rate, "markup": markup, "thr": thr, "base": list(base),
-                          "chain_offset": chain_offset, "fractional": bool(fractional)},
+                          "chain_offset": chain_offset, "fractional": bool(fractional),
+                          "rate_path": [tuple(x) for x in rate_path], "yearlen": yearlen},
                 "maxsteps": maxsteps, "name": name},
         "invariants": list(invariants), "properties": list(properties),
     }
@@ -142,6 +143,11 @@ def c07_models(tier):
     ms.append(full_model("yearly-interest", ["S1", "F4"], ["S1", "F4"], ygrid, ev3, [{"S1": H}, {"F4": -H}, {}, {"S1": F(3, 2)}],
                          lats=(0,), delays=(0, 1), fees="free", rate=F(1, 8), markup=F(1, 16), yearlen=YEAR, maxsteps=3,
                          base=(1989, 1, 1), invariants=C07_INV))
+    # the reference rate is a published series (loaded with Transmitter.add_prices, as TradingEnvXY does) that falls to
+    # exactly zero after two years: from then on idle cash earns nothing and a loan costs the markup only
+    ms.append(full_model("yearly-rate-path", ["S1", "F4"], ["S1", "F4"], ygrid, ev3, [{"S1": H}, {}, {"S1": F(3, 2)}],
+                         lats=(0,), delays=(0,), fees="free", rate=F(0), rate_path=[(1, F(1, 8)), (3, F(0))], markup=F(1, 16),
+                         yearlen=YEAR, maxsteps=3, base=(1989, 1, 1), invariants=C07_INV))
     return ms
 
 
